@@ -93,8 +93,10 @@ def m_alias(case, holds_fn=None):
 
 
 def m_unordered_conv(case, holds_fn=None):
-    """set/frozenset -> list/tuple type change with omitted values: passes with always_include_values"""
-    if not case.get("set_to_seq_type_change") or case.get("always_include_values"):
+    """a type change whose values were omitted although new_type(old_value) does not reproduce the new
+    value with its types (set/frozenset -> list/tuple iteration order; nested set vs frozenset):
+    passes once the values are always included"""
+    if case.get("always_include_values"):
         return False
     t1, t2, cfg, always = _inputs(case)
     return (holds_fn or holds)(t1, t2, cfg, True)
